@@ -239,6 +239,21 @@ pub fn glued_pairs() -> Vec<String> {
     v
 }
 
+/// Amounts of money in every layout: symbol before / after the number, with no, one or two blanks, at the start, in
+/// the middle and at the end of a clause.
+pub fn currency_texts() -> Vec<String> {
+    let mut v = Vec::new();
+    for sym in ["$", "€", "£", "¥", "¢", "₭", "₹", "₽"] {
+        for num in ["25", "3.50", "1,000", "1e6", "0"] {
+            for lay in [format!("{sym}{num}"), format!("{sym} {num}"), format!("{sym}  {num}"), format!("{num}{sym}"), format!("{num} {sym}"), format!("{num}   {sym}"), format!("{sym}{num}{sym}"), format!("{sym} {sym} {num}")] {
+                v.push(format!("The ticket cost {lay} at the door."));
+                if num == "25" { v.push(lay.clone()); v.push(format!("{lay} is the price, {lay}")); v.push(format!("It was {lay}")); }
+            }
+        }
+    }
+    v
+}
+
 pub fn adversarial() -> Vec<String> {
     let mut v: Vec<String> = vec![
         "".into(), " ".into(), "\n".into(), "\n\n".into(), "\t".into(), "\r\n".into(), ".".into(),
